@@ -294,6 +294,18 @@ def process_fn(src, unit, key, spec, s, hp, ob, cb, add_edit, canary, disabled_r
 
     # ghost inserts at textual anchors
     for ins in spec.get('inserts', []):
+        if 'loop_end' in ins or 'loop_start' in ins:
+            found = find_loops(src, ob, cb)
+            n = ins.get('loop_end', ins.get('loop_start'))
+            if n >= len(found):
+                raise AnchorLost('%s: loop #%d not found (have %d)' % (key, n, len(found)))
+            lob = found[n][1]
+            if 'loop_end' in ins:
+                lcb = src.match_close(lob)
+                add_edit(lcb, lcb, ' ' + ins['text'] + '\n', prio=-3)
+            else:
+                add_edit(lob + 1, lob + 1, ' ' + ins['text'] + ' ', prio=3)
+            continue
         anchor = ins['anchor']
         occ = [m.start() for m in re.finditer(re.escape(anchor), text[ob:cb + 1])]
         occ = [ob + o for o in occ if src.mask[ob + o]]
